@@ -1,2 +1,3 @@
 import PyhfDriver.Json
 import PyhfDriver.Interp
+import PyhfDriver.ModelOps
